@@ -454,10 +454,17 @@ func (e *Engine) loopMods(s *State, l *Loop) *modSet {
 				}
 			case *ssa.Go:
 				m.allocs = true
+				calName := ""
 				if cal := in.Common().StaticCallee(); cal != nil {
-					m.ghost["$spawns_"+cal.Name()] = true
+					calName = cal.Name()
 				} else if mc, ok := in.Common().Value.(*ssa.MakeClosure); ok {
-					m.ghost["$spawns_"+mc.Fn.Name()] = true
+					calName = mc.Fn.Name()
+				}
+				if calName != "" {
+					m.ghost["$spawns_"+calName] = true
+					for i := range in.Common().Args {
+						m.ghost[fmt.Sprintf("$spawnarg_%s_%d", calName, i)] = true
+					}
 				}
 			case *ssa.MakeMap, *ssa.MakeSlice, *ssa.MakeChan, *ssa.MakeClosure, *ssa.MakeInterface:
 				m.allocs = true
@@ -776,6 +783,9 @@ func (s *State) evalFrameItem(it *SExpr, env *SpecEnv) frameItem {
 	fi := frameItem{src: it.String()}
 	if it.Op == "ident" && strings.HasPrefix(it.Name, "$") {
 		_, isChan := s.eng.chanGhostT[it.Name]
+		if strings.HasPrefix(it.Name, "$spawns_") {
+			isChan = true
+		}
 		if _, ok := s.eng.ghostDecls[it.Name]; !ok && !isChan {
 			specFail("modifies %s: undeclared ghost variable", it.Name)
 		}
@@ -1879,6 +1889,9 @@ func (s *State) doReturn(in *ssa.Return) {
 		for g := range s.ghost {
 			_, decl := s.eng.ghostDecls[g]
 			_, isChan := s.eng.chanGhostT[g]
+			if strings.HasPrefix(g, "$spawns_") {
+				isChan = true
+			}
 			if (decl || isChan) && !s.fnFrame.Ghost[g] {
 				gs = append(gs, g)
 			}
